@@ -332,6 +332,9 @@ pub fn cmd_replay(bin: &Path, id: &str, path: &str) -> i32 {
                         rec.expected.status,
                         rec.run.trace.steps
                     );
+                    if std::env::var("DRIVER_DUMP_TRACE").is_ok() {
+                        println!("--- trace\n{}--- stdout\n{}--- stderr\n{}---", rec.run.trace.raw, String::from_utf8_lossy(&rec.run.stdout), String::from_utf8_lossy(&rec.run.stderr));
+                    }
                 }
             }
             if let Some(v) = vs.iter().find(|v| v.class == rf.class) {
